@@ -664,7 +664,7 @@ def _main(chk: C.Check, tree: Tree, thorough: bool) -> None:
                                          "py": list(py), "note": "access paths disagree"}})
 
     correspond(chk, "c13", IMPORTS, c_defs(tree, enc.paths), items,
-               what="PathResolve.get_source", shard=1000 if thorough else 350)
+               what="PathResolve.get_source", shard=2500 if thorough else 900)
 
     samples = []
     for want in ("b/a", "../ab", "", str(tree.T / "secret")):
